@@ -46,6 +46,59 @@ def lossy_pi_valves(rng, spec):
     return spec
 
 
+def mixing_net(rng):
+    """liquid net for mode="bidirectional": 2-3 supplies (ext grids) of different temperature and pressure feed mixing
+    junctions through pipes with heat losses; downstream pipes (heights, loss coefficients, some declared against the
+    flow) lead to sinks.  One section per pipe, so inlet / outlet temperature of every section are reported."""
+    n_sup = rng.choice([2, 2, 3])
+    ops, nj = [], 0
+
+    def junction(t, h):
+        nonlocal nj
+        ops.append(["create_junction", {"pn_bar": 5.0, "tfluid_k": t, "height_m": h, "index": nj}])
+        nj += 1
+        return nj - 1
+
+    def pipe(a, c, i):
+        if rng.random() < 0.3:
+            a, c = c, a
+        ops.append(["create_pipe_from_parameters",
+                    {"from_junction": a, "to_junction": c, "length_km": rng.choice([0.2, 0.4, 0.8]),
+                     "inner_diameter_mm": rng.choice([60., 80., 100.]), "k_mm": rng.choice([0.05, 0.1, 0.2]),
+                     "loss_coefficient": rng.choice([0., 1.5]), "sections": 1, "u_w_per_m2k": rng.choice([1., 5., 15.]),
+                     "text_k": rng.choice([275., 283., 293.]), "index": i}])
+    temps = rng.sample([300., 320., 340., 360., 375.], n_sup)
+    mix = junction(330., rng.choice([0., 5.]))
+    mix2 = junction(330., rng.choice([0., 12.]))
+    ends = [junction(330., rng.choice([0., 20., -5.])) for _ in range(rng.choice([1, 2]))]
+    pi = 0
+    for k, t in enumerate(temps):
+        js = junction(t, rng.choice([0., 10., 25.]))
+        ops.append(["create_ext_grid", {"junction": js, "p_bar": 5.0 - 0.2 * k, "t_k": t, "index": k}])
+        pipe(js, mix if k < 2 else mix2, pi)
+        pi += 1
+    pipe(mix, mix2, pi)
+    pi += 1
+    for e in ends:
+        pipe(mix2, e, pi)
+        pi += 1
+        ops.append(["create_sink", {"junction": e, "mdot_kg_per_s": rng.choice([2.0, 4.0, 6.0]), "index": e}])
+    return {"fluid": "water", "ops": ops, "mode": "bidirectional"}
+
+
+def mixing_net_feeding(rng, tries=8):
+    """a mixing_net in which every supply delivers (hydraulic pre-run): a temperature-fixed ext grid that absorbs flow is not
+    an admissible heat-transfer problem for pandapipes (the thermal stage does not converge), so such specs are redrawn"""
+    from harness import gen, drive
+    for _ in range(tries):
+        spec = mixing_net(rng)
+        net = gen.build(spec)
+        st, _ = drive.run(net, use_numba=False, mode="hydraulics", iter=100)
+        if st == "ok" and (net.res_ext_grid.mdot_kg_per_s.values < -1e-3).all():
+            return spec
+    return None
+
+
 def p_air(h):
     return 1.01325 * (1 - h * 0.0065 / 288.15) ** 5.255
 
@@ -78,7 +131,7 @@ def close(a, b, scale=0.0, rt=RT, at=1e-7):
     return abs(a - b) <= rt * max(abs(a), abs(b), scale) + at
 
 
-def sections_of(net, tbl, idx):
+def sections_of(net, tbl, idx, thermal=False):
     """-> list of dicts (one per section) with absolute end pressures [bar], heights, geometry, m, lambda_reported"""
     import pandapipes as pp
     row = net[tbl].loc[idx]
@@ -103,6 +156,13 @@ def sections_of(net, tbl, idx):
     ps.append(float(res["p_to_bar"]))
     hs = [hf + (ht - hf) * i / n for i in range(n + 1)]
     tf_, tt_ = float(net.res_junction.at[fj, "t_k"]), float(net.res_junction.at[tj, "t_k"])
+    if thermal:
+        # temperature field solved: the branch's own inlet temperature (junction the flow comes from) and its reported
+        # outlet temperature t_outlet_k (differs from the downstream junction where streams mix); one section only
+        if n != 1 or tbl != "pipe":
+            return []
+        tf_ = float(res["t_from_k"] if res["mdot_from_kg_per_s"] >= 0 else res["t_to_k"])
+        tt_ = float(res["t_outlet_k"])
     ts = [tf_ + (tt_ - tf_) * i / n for i in range(n + 1)]       # reported junction temperatures (an ext grid fixes
     #                                                              its junction to t_k); internal nodes: linear
     out = []
@@ -141,7 +201,7 @@ def internal_pressures(net, idx, n):
     return [float(npit[int(r[B.TO_NODE]), N.PINIT]) for r in rows[:-1]]
 
 
-def check_net(net, friction_model):
+def check_net(net, friction_model, thermal=False):
     """-> (n_sections_checked, n_flowing, list of failures (what, section dict, lhs, rhs))"""
     fluid = net.fluid
     gas = fluid.is_gas
@@ -152,7 +212,7 @@ def check_net(net, friction_model):
         if tbl not in net or not len(net[tbl]) or "res_" + tbl not in net:
             continue
         for idx in net[tbl].index:
-            for s in sections_of(net, tbl, idx):
+            for s in sections_of(net, tbl, idx, thermal):
                 n_chk += 1
                 own_cb = False
                 a = s["d"] ** 2 * math.pi / 4
